@@ -300,6 +300,9 @@ def tp_variant(kind, base):
         return R.encode_transport_parameters(d + [(0x11, bytes(7))])
     if kind == "version-info-other":
         return R.encode_transport_parameters(d + [(0x11, (0x6B3343CF).to_bytes(4, "big") + (0x6B3343CF).to_bytes(4, "big"))])
+    if kind == "version-info-other-first":
+        # chosen = the version in use (v1), available = [v2, v1]: what an honest client preferring v2 announces
+        return R.encode_transport_parameters(d + [(0x11, (1).to_bytes(4, "big") + (0x6B3343CF).to_bytes(4, "big") + (1).to_bytes(4, "big"))])
     if kind == "int-with-trailing":
         return R.encode_transport_parameters(d + [(0x01, b"\x01\x02\x03")])
     if kind == "zero-length-int":
@@ -313,7 +316,7 @@ def tp_variant(kind, base):
     return R.encode_transport_parameters(d)
 
 
-TP_KINDS = ["ok", "ok", "missing", "empty", "garbage", "truncated", "dup", "huge-values", "ack-delay-exponent-21", "max-ack-delay-2^14", "udp-payload-1199", "cid-limit-1", "cid-limit-0", "wrong-iscid", "no-iscid", "server-only-from-client", "stateless-reset-token-short", "preferred-address", "preferred-address-truncated", "version-info-zero", "version-info-odd", "version-info-other", "int-with-trailing", "zero-length-int", "max-datagram", "unknown-ids", "many"]
+TP_KINDS = ["ok", "ok", "missing", "empty", "garbage", "truncated", "dup", "huge-values", "ack-delay-exponent-21", "max-ack-delay-2^14", "udp-payload-1199", "cid-limit-1", "cid-limit-0", "wrong-iscid", "no-iscid", "server-only-from-client", "stateless-reset-token-short", "preferred-address", "preferred-address-truncated", "version-info-zero", "version-info-odd", "version-info-other", "version-info-other-first", "version-info-other-first", "int-with-trailing", "zero-length-int", "max-datagram", "unknown-ids", "many"]
 
 
 def mutate_bytes(data, muts):
@@ -484,6 +487,8 @@ def hostile_server_case(ctx, case):
         certs = {
             "ok": [(c, []) for c in chain], "empty": [], "garbage-der": [(b"\x30\x82\x01\x00" + bytes(50), [])], "truncated-der": [(chain[0][: len(chain[0]) // 2], [])],
             "empty-der": [(b"", [])], "many": [(chain[0], [])] * 30, "leaf-twice": [(chain[0], []), (chain[0], [])], "with-ext": [(chain[0], [(5, b"\x01"), (18, b"")])],
+            # a good leaf followed by an unusable "intermediate"
+            "leaf+garbage": [(chain[0], []), (b"\x30\x82\x01\x00" + bytes(50), [])], "leaf+truncated": [(chain[0], []), (chain[0][: len(chain[0]) // 2], [])], "leaf+empty": [(chain[0], []), (b"", [])],
         }[ck]
         cert = L.encode_message({"type": 11, "request_context": (b"ctx" if case["cert_ctx"] else b""), "certificates": certs})
         if case["mut_msg"] == "cert":
@@ -586,7 +591,7 @@ def hostile_client_case(ctx, case):
             psk_modes={"ok": (1,), "none": None, "ke-only": (0,)}[case["psk_modes"]],
             extra_extensions=tuple(extra),
         )
-        cp = ClientPeer(alpn=alpn, tp_raw=tpb if tpb is not None else b"", request_client_cert=case["request_cert"], client_cert=case["client_cert"], server_kw={"alpn_protocols": ["h3"]} if case["server_alpn"] else None, **kw)
+        cp = ClientPeer(alpn=alpn, tp_raw=tpb if tpb is not None else b"", request_client_cert=case["request_cert"], client_cert=case["client_cert"], server_kw=dict({"alpn_protocols": ["h3"]} if case["server_alpn"] else {}, **({"supported_versions": [R.V1]} if (case.get("server_versions") == "v1-only" or case["tp"] == "version-info-other-first") else {})), **kw)
         if tpb is None:
             cp.ref.transport_parameters = None
         cp.ref.server_name = server_name
@@ -643,6 +648,8 @@ def hostile_client_case(ctx, case):
                     fl = L.encode_message({"type": 20, "verify_data": b""})
                 elif cf == "unsolicited-cert":
                     fl = cp.ref.certificate(chain=[B.der(E.load_cert("client.pem")[0])]) + cp.ref.finished()
+                elif cf == "cert-leaf+garbage":
+                    fl = cp.ref.raw(L.encode_message({"type": 11, "request_context": b"", "certificates": [(B.der(E.load_cert("client.pem")[0]), []), (b"\x30\x03\x02\x01\x01", [])]})) + cp.ref.finished()
                 elif cf == "cert-garbage":
                     fl = cp.ref.raw(L.encode_message({"type": 11, "request_context": b"", "certificates": [(b"\x30\x03\x02\x01\x01", [])]})) + cp.ref.finished()
                 elif cf == "cv-alg-mismatch":
@@ -680,7 +687,7 @@ def g4_strategies():
         "sid": st.sampled_from([None] * 4 + [b"", b"x" * 32, b"y" * 33]), "hrr": st.sampled_from([False] * 8 + [True]),
         "tp": st.sampled_from(TP_KINDS), "ee_alpn": st.sampled_from(["default"] * 4 + ["none", "empty-list", "empty-name", "non-ascii", "not-offered", "two", "truncated"]),
         "ee_extra": st.sampled_from(["none"] * 4 + ["early-data", "dup-tp", "unknown", "early-data-nonempty"]),
-        "cert": st.sampled_from(["ok"] * 5 + ["empty", "garbage-der", "truncated-der", "empty-der", "many", "leaf-twice", "with-ext"]), "cert_ctx": st.sampled_from([False] * 5 + [True]),
+        "cert": st.sampled_from(["ok"] * 5 + ["empty", "garbage-der", "truncated-der", "empty-der", "many", "leaf-twice", "with-ext", "leaf+garbage", "leaf+truncated", "leaf+empty"]), "cert_ctx": st.sampled_from([False] * 5 + [True]),
         "cv": st.sampled_from(["ok"] * 5 + ["alg-ecdsa", "alg-rsa-pss", "alg-rsa-pkcs1", "alg-zero", "alg-unknown", "alg-ed448", "sig-empty", "sig-truncated", "sig-garbage", "sig-long"]),
         "fin": st.sampled_from(["ok"] * 6 + ["empty", "short", "long", "garbage"]), "skip": st.sampled_from(["none"] * 8 + ["cert", "cv"]),
         "mut_msg": st.sampled_from(["none"] * 5 + ["sh", "ee", "cert", "cv", "fin", "nst"]), "mut": mut, "chunks": chunks, "huge_first": st.sampled_from([0] * 12 + [8, 11, 4]),
@@ -695,12 +702,13 @@ def g4_strategies():
         "groups": st.sampled_from(["ok"] * 4 + ["grease-only", "empty", "mismatch"]), "suites": st.sampled_from(["ok"] * 4 + ["none-common", "empty", "grease"]),
         "sigalgs": st.sampled_from(["ok"] * 4 + ["empty", "unknown", "rsa-only"]), "sid": st.sampled_from(["ok", "ok", "32", "33"]), "psk_modes": st.sampled_from(["ok", "ok", "none", "ke-only"]),
         "request_cert": st.booleans(), "client_cert": st.booleans(), "version_field": st.sampled_from([False] * 6 + [True]), "cid_before": st.just(True),
-        "client_flight": st.sampled_from(["ok"] * 3 + ["fin-garbage", "fin-empty", "unsolicited-cert", "cert-garbage", "cv-alg-mismatch", "key-update", "eoed"]),
+        "client_flight": st.sampled_from(["ok"] * 3 + ["fin-garbage", "fin-empty", "unsolicited-cert", "cert-garbage", "cert-leaf+garbage", "cv-alg-mismatch", "key-update", "eoed"]),
+        "server_versions": st.sampled_from(["both", "both", "v1-only"]),
         "mut_msg": st.sampled_from(["none"] * 4 + ["ch", "ch", "cf"]), "mut": mut, "chunks": chunks,
     })
     ok_server = {"key_share": "ok", "sh_extra": "none", "suite": None, "version": 0x0304, "sid": None, "hrr": False, "tp": "ok", "ee_alpn": "default", "ee_extra": "none", "cert": "ok", "cert_ctx": False,
                  "cv": "ok", "fin": "ok", "skip": "none", "mut_msg": "none", "huge_first": 0, "nst_early": 0xFFFFFFFF, "key_update_msg": False, "chunks": None}
-    ok_client = {"tp": "ok", "sni": "ok", "alpn": "ok", "ch_extra": "none", "key_share": "ok", "key_share_bytes": "ok", "groups": "ok", "suites": "ok", "sigalgs": "ok", "sid": "ok", "psk_modes": "ok",
+    ok_client = {"server_versions": "both", "tp": "ok", "sni": "ok", "alpn": "ok", "ch_extra": "none", "key_share": "ok", "key_share_bytes": "ok", "groups": "ok", "suites": "ok", "sigalgs": "ok", "sid": "ok", "psk_modes": "ok",
                  "version_field": False, "client_flight": "ok", "mut_msg": "none", "chunks": None}
 
     def focus(full, ok):
